@@ -280,7 +280,7 @@ def _contact_top():
     return top
 
 
-def contacts(scheme: str = "closest-heavy", mode: str = "all", soft_min: bool = False, periodic: bool = True):
+def contacts(scheme: str = "closest-heavy", mode: str = "all", soft_min: bool = False, periodic: bool = True, ignore_nonprotein: bool = True):
     """column i of compute_contacts is the minimum (or soft minimum) over EXACTLY the atom pairs the scheme designates for residue pair i,
     and residue_pairs[i] is that pair (running-offset bookkeeping with residues of unequal size)"""
     import mdtraj.geometry.contact as M
@@ -317,7 +317,7 @@ def contacts(scheme: str = "closest-heavy", mode: str = "all", soft_min: bool = 
     import warnings
     with warnings.catch_warnings():
         warnings.simplefilter("ignore")
-        dist_out, pairs = M.compute_contacts(traj, contacts=cont, scheme=scheme, ignore_nonprotein=True, soft_min=soft_min, soft_min_beta=20, periodic=periodic)
+        dist_out, pairs = M.compute_contacts(traj, contacts=cont, scheme=scheme, ignore_nonprotein=ignore_nonprotein, soft_min=soft_min, soft_min_beta=20, periodic=periodic)
     G = Goals(60000)
     G.add("periodic_flag_forwarded", [], z3.BoolVal(len(flags) >= 1 and all(f == bool(periodic) for f in flags)), {})
     H = lambda a: a.element.symbol == "H"
@@ -334,10 +334,14 @@ def contacts(scheme: str = "closest-heavy", mode: str = "all", soft_min: bool = 
         if scheme == "sidechain":
             return [a.index for a in atoms if sc(a)]
         return [a.index for a in atoms if sc(a) and (not H(a) or top.residue(r).name == "GLY")]
+    has_ca = lambda x: any(a.name == "CA" for a in top.residue(x).atoms)
+    # documented: 'all' = every residue pair at least three apart, restricted to protein residues (those with a CA) when ignore_nonprotein;
+    # the 'ca' scheme can only report pairs in which both residues HAVE a CA
     want_pairs = [(i, j) for i in range(top.n_residues) for j in range(i + 3, top.n_residues)
-                  if all(any(a.name == "CA" for a in top.residue(x).atoms) for x in (i, j))] if mode == "all" else [tuple(p) for p in cont]
+                  if all(has_ca(x) for x in (i, j)) or (not ignore_nonprotein and scheme != "ca")] if mode == "all" else [tuple(p) for p in cont]
     got_pairs = [tuple(int(v) for v in p) for p in np.asarray(pairs)]
     G.add("residue_pairs", [], z3.BoolVal(got_pairs == want_pairs), {})
+    G.add("one_label_per_column", [], z3.BoolVal(np.asarray(dist_out).shape == (F, len(got_pairs))), {})
     prem = list(S.CTX.cons) + list(S.CTX.assumed)
     if got_pairs == want_pairs:
         for col, (i, j) in enumerate(want_pairs):
@@ -355,12 +359,12 @@ def contacts(scheme: str = "closest-heavy", mode: str = "all", soft_min: bool = 
                         tot = tot + e
                     spec = Sym(S.rat(20.0)) / tot.log()
                     G.add(f"softmin[{col}.f{f}]", prem, val == tz(spec), {})
-    r = G.run(_replay_contacts(scheme, cont, soft_min, periodic))
+    r = G.run(_replay_contacts(scheme, cont, soft_min, periodic, ignore_nonprotein))
     r["residue_pairs"] = got_pairs
     return r
 
 
-def _replay_contacts(scheme, cont, soft_min, periodic=True):
+def _replay_contacts(scheme, cont, soft_min, periodic=True, ignore_nonprotein=True):
     def rep(name, vals):
         script = f'''
 import sys, itertools, warnings, numpy as np, mdtraj as md
@@ -371,7 +375,9 @@ top = _contact_top(); rng = np.random.RandomState(7)
 t = md.Trajectory((rng.rand(3, top.n_atoms, 3) * 3).astype(np.float32), top)
 t.unitcell_lengths = np.full((3, 3), 1.7); t.unitcell_angles = np.full((3, 3), 90.0)      # a cell much smaller than the spread: the two conventions differ
 scheme, cont, soft, periodic = {scheme!r}, {cont!r}, {soft_min!r}, {periodic!r}
-d, pairs = md.compute_contacts(t, contacts=cont, scheme=scheme, soft_min=soft, soft_min_beta=20, periodic=periodic)
+d, pairs = md.compute_contacts(t, contacts=cont, scheme=scheme, soft_min=soft, soft_min_beta=20, periodic=periodic, ignore_nonprotein={ignore_nonprotein!r})
+if d.shape[1] != len(pairs):
+    print("distance columns:", d.shape[1], " residue-pair labels:", len(pairs)); sys.exit(1)
 H = lambda a: a.element.symbol == "H"
 sc = lambda a: a.residue.name != "HOH" and a.name not in ("C", "CA", "N", "O", "HA", "H")
 def members(r):
@@ -404,7 +410,13 @@ def rdf_normalisation():
     S.CTX.cons += [tz(v) > S.rat(0.5) for v in vols] + [tz(v) < 1000 for v in vols]
     dist = np.array([[0.11, 0.26, 0.31], [0.12, 0.41, 0.33]])
     M.compute_distances = lambda traj, pairs, periodic=True, opt=True: dist
-    t = types.SimpleNamespace(unitcell_volumes=vols)
+    class _T:                                            # what compute_rdf may legitimately ask a trajectory
+        unitcell_volumes = vols
+        n_frames, n_atoms = 2, 3
+
+        def __len__(self):
+            return 2
+    t = _T()
     pairs = np.array([[0, 1], [0, 2], [1, 2]])
     r, g = M.compute_rdf(t, pairs, r_range=(0.1, 0.5), n_bins=4)
     counts, edges = np.histogram(dist, range=(0.1, 0.5), bins=4)
